@@ -69,6 +69,13 @@ pub fn run_case(f: &[&str]) -> String {
     let head = f[9] == "1";
     let up: Option<String> = if f[10] == "~" { None } else { Some(String::from_utf8(unhex(f[10])).unwrap()) };
     let pieces = pieces_of(f.get(11).copied().unwrap_or("-"));
+    // stale=<ms>: a throw-away response is printed first, then the process waits; the Date of the real
+    // response must still be the current time (a cached date would be that many ms old)
+    if let Some(ms) = f.iter().find_map(|x| x.strip_prefix("stale=")) {
+        let mut sink = Vec::new();
+        let _ = Response::from_string("warm-up").raw_print(&mut sink, HTTPVersion(1, 1), &[], false, None);
+        std::thread::sleep(std::time::Duration::from_millis(ms.parse().unwrap()));
+    }
 
     let res = std::panic::catch_unwind(std::panic::AssertUnwindSafe(|| {
         let rd = |d: Vec<u8>| Pieces { d, pos: 0, sizes: pieces.clone(), i: 0 };
@@ -140,7 +147,7 @@ pub fn run_case(f: &[&str]) -> String {
         }
         Ok((_, Err(k), _, _)) => format!("ERR {}", k),
         Ok((out, Ok(()), dl, nh)) => {
-            let (canon, _n) = canon_dates_in_head(&out, 5);
+            let (canon, _n) = canon_dates_in_head(&out, 2);
             format!(
                 "{} dl={} nh={}",
                 hex(&canon),
